@@ -19,7 +19,9 @@ ASSUMPTIONS = ['exempt by the statement: de.handelsregisternummer, mx.rfc, es.re
                'two characters of the same behavioural class (same decimal/digit value class, category, int()/int(,36) '
                'acceptance, str predicates, regex \\d/\\w, ASCII-ness of upper/lower/NFKC) are treated alike by any '
                'string predicate the code can apply (quick tier only; thorough enumerates all)']
-EXEMPT = ('stdnum.de.handelsregisternummer', 'stdnum.mx.rfc', 'stdnum.es.referenciacatastral') + core.GENERIC
+# the three formats the statement exempts are exempt only for the national letters of their own alphabet
+NATIONAL_LETTERS = {'stdnum.de.handelsregisternummer': 'ÄÖÜäöüß', 'stdnum.mx.rfc': 'Ññ', 'stdnum.es.referenciacatastral': 'Ññ'}
+EXEMPT = core.GENERIC
 
 _d = re.compile(r'\d')
 _w = re.compile(r'\w')
@@ -117,7 +119,7 @@ def _field(i, n):
 def _check(res, name, m, x, dev):
     o = outcome(m.validate, x)
     if o[0] == 'ok' and isinstance(o[1], str):
-        if not o[1].isascii():
+        if not o[1].isascii() and not all(c.isascii() or c in NATIONAL_LETTERS.get(name, '') for c in o[1]):
             res.viol(ID, 'non-ascii-result', name, 'validate', {'module': name, 'number': x, 'devclass': dev[1]},
                      'validate(%r) returned %r' % (x, o[1]), 'ASCII-only canonical number',
                      devclass=dev[1], rank=[dev[0], len(x), x])
